@@ -248,6 +248,9 @@ func (p *parser) readType() (t Type, err error) {
 			if t, err = p.readType(); err != nil {
 				return
 			}
+			if t == nil {
+				return nil, parseError(p.line, p.col, "list member type missing")
+			}
 			b, err = p.skipSpace()
 			switch {
 			case err != nil:
